@@ -28,7 +28,7 @@ RULE = ("complete enumeration of %d configurations: edge kind (odometry, landmar
 NBIND = {"quick": 1200, "thorough": 40000}
 PLAN = {
     "quick": {"cases": NCOMBO + NBIND["quick"], "soft_s": 100, "min_nontrivial": NCOMBO, "require": ["eval:accept-iff-consistent", "eval:bound-by-id", "eval:accepted-edge-usable", "consistent_configurations",
-                                                                                  "inconsistent_configurations", "edge_prebound:named", "edge_prebound:stale", "lookalike_pairs", "file_binding_cases"]},
+                                                                                  "inconsistent_configurations", "edge_prebound:named", "edge_prebound:stale", "lookalike_pairs", "file_binding_cases", "contiguous_id_range_listed_out_of_order"]},
     "thorough": {"cases": NCOMBO * 12 + NBIND["thorough"], "soft_s": 1200, "min_nontrivial": NCOMBO * 12, "require": ["eval:accept-iff-consistent", "eval:bound-by-id", "eval:accepted-edge-usable",
                                                                                                 "consistent_configurations", "inconsistent_configurations"]},
 }
@@ -52,6 +52,23 @@ CONSISTENT = [c for c in COMBOS if consistent(*c)]
 def binding_case(ctx, i, rng):
     """Whole graphs (several edges, shuffled lists, hostile ids): every edge is attached to the listed vertices whose ids it names."""
     spec, labels = gen.cluster_graph(rng, size=(2, 5))
+    if rng.random() < 0.35:
+        # ids forming a contiguous range (as in the usual datasets) but listed out of order; half of the time the smallest id is listed first and the
+        # largest last, with the middle shuffled (e.g. [0, 2, 1, 3])
+        n = len(spec["vertices"])
+        base = int(rng.choice([0, 1, 100, -3, 2 ** 40]))
+        perm = [int(j) for j in rng.permutation(n)]
+        spec = gen.relabel(spec, {v["id"]: base + perm[j] for j, v in enumerate(spec["vertices"])})
+        vs = sorted(spec["vertices"], key=lambda v: v["id"])
+        if n >= 4 and rng.random() < 0.5:
+            mid = vs[1:-1]
+            mid = [mid[int(j)] for j in rng.permutation(len(mid))]
+            vs = [vs[0]] + mid + [vs[-1]]
+        else:
+            vs = [vs[int(j)] for j in rng.permutation(n)]
+        spec["vertices"] = vs
+        spec.pop("share", None)
+        ctx.count("contiguous_id_range_listed_out_of_order")
     g = M.build(spec)
     byid = {}
     for v in g._vertices:
